@@ -368,7 +368,7 @@ fn parse_token(text: &str) -> IResult<&str, Token> {
 
 fn parse_token_not_semicolon(text: &str) -> IResult<&str, Token> {
     let (rest, token) = parse_token(text)?;
-    if token == Token::Semicolon {
+    if token == Token::Semicolon || token == Token::CloseBrace {
         fail(text)
     } else {
         Ok((rest, token))
